@@ -255,6 +255,26 @@ func c10ReinitConfined(c *Ctx) {
 	}
 	r.Check(okSame, "C10/R8", "node.reinitDKG:own-round-only", "reinitDKG acts only when the body's dkg_id equals the envelope's round id", c.Pos(fn.Pos()),
 		sprintf("%d equality tests between json(message.Data).DKGID and message.DkgRoundID, %d effect calls; %s is reachable without passing one: an unsigned reinit message posted for one round replaces the stored state of another, existing round", len(same), len(effects), where))
+	// a round this node already holds is left exactly as it is: the (unsigned, unconfirmed on this path) reinit message has
+	// no effect at all when the round exists — in particular it cannot re-register anybody's communication key
+	var existEdges []ssax.Edge
+	for _, call := range ssax.Calls(fn, false, func(ci ssa.CallInstruction) bool { o := ssax.CalleeObj(ci); return o != nil && o.Name() == "IsExist" }) {
+		existEdges = append(existEdges, ssax.BoolEdgesOfCall(fn, call, 0, true)...)
+	}
+	okExist, whereExist := len(existEdges) > 0, ""
+	for _, ee := range existEdges {
+		dest := ee.From.Succs[ee.Succ]
+		if len(dest.Instrs) == 0 {
+			continue
+		}
+		for _, e := range effects {
+			if dest.Instrs[0] == e.(ssa.Instruction) || ssax.ReachableFrom(fn, dest.Instrs[0], e.(ssa.Instruction), nil, nil) {
+				okExist, whereExist = false, callName(e)+" at "+c.PosOf(e.(ssa.Instruction))
+			}
+		}
+	}
+	r.Check(okExist, "C10/R8", "node.reinitDKG:existing-round-untouched", "a reinit message for a round the node already holds has no effect", c.Pos(fn.Pos()),
+		sprintf("%d tests of IsExist's answer; on the round-exists side %s is reachable: an unsigned reinit message posted by any participant rewrites a live round (e.g. registers the poster's key under another participant's name, after which the poster speaks for that participant)", len(existEdges), whereExist))
 	empty := emptyEdges(fn, isBodyID)
 	okEmpty := len(empty) > 0
 	for _, ee := range empty {
